@@ -359,7 +359,9 @@ where
         if let Some((line_num, pos, byte)) = self.first_byte()? {
             if byte == b'>' {
                 self.buf_pos.start = pos;
-                self.position.byte = pos as u64;
+                // `pos` is an offset into the buffer; skipped blank lines that were
+                // already discarded are accounted for in `first_byte()`
+                self.position.byte += pos as u64;
                 self.position.line = line_num as u64;
                 self.search_pos = pos + 1;
                 return Ok(true);
@@ -389,9 +391,13 @@ where
                 pos += line.len() + 1;
                 last_line_len = line.len();
             }
-            // If an orphan '\r' is found at the end of the buffer,
-            // we need to move it to the start and re-search the line
-            self.buf_reader.consume(pos - 1 - last_line_len);
+            // The last piece has no line terminator yet (it is empty or an orphan
+            // '\r'): it is moved to the start and searched (and counted) again
+            // after refilling the buffer.
+            line_num -= 1;
+            let consumed = pos - 1 - last_line_len;
+            self.position.byte += consumed as u64;
+            self.buf_reader.consume(consumed);
             self.buf_reader.make_room();
         }
         Ok(None)
